@@ -34,6 +34,17 @@ CLAIMED = {
              "model (bounded exact validation N<=6..8, K=3 reported as a bounded stand-in).",
         technique="contract-based deductive verification + algebraic lemmas over the contracts' return expressions (z3 nlsat)",
         design="5/C06"),
+    "C01": dict(
+        text="_comb_gen (loop invariant tying the slice loop to the recursive spec function delvar; result = exactly the subsequences at most "
+             "max_edits shorter, via the Lean lemma L-comb), SymdelDB.__init__ (nested invariants: the index maps each deletion variant to the "
+             "strictly increasing list of exactly its positions), symdel (one collection: every reported triplet is an ordered pair of distinct "
+             "positions with exact Levenshtein distance <= max_edits, every such pair is reported - witness from L-symdel - and once) and "
+             "nearest_neighbor (delegation with argument binding) are verified for all strings, all list sizes, all max_edits, and list / "
+             "ndarray / Series containers.",
+        note=NOTE_COMMON + " rapidfuzz Levenshtein.distance = lev and itertools.combinations are assumed contracts; L-symdel, L-comb, "
+             "L-lev0/L-sym are Lean-proved lemmas imported as axioms (statement transcription SMT<->Lean is by hand, see DESIGN).",
+        technique="contract-based deductive verification: loop invariants + comprehension sites + imported Lean lemmas, cvc5/z3",
+        design="5/C01"),
 }
 NOT_BUILT = "machinery for this property not built yet (build in progress; see DESIGN.md section 8)"
 
